@@ -1,5 +1,5 @@
 """Which bundles / engines decide which property (the fixed properties are in /verif/properties.jsonl)."""
-from . import attack
+from . import attack, hashl, evaluation, draw
 
 WL_ATTACK = ['external_body:axiom_i8_add_assign_ref', 'assume_specification:i8::abs']
 TB_COMMON = [
@@ -17,7 +17,46 @@ def b_attack(g):
     attack.build(g)
 
 
+def b_hash(g):
+    attack.build(g); hashl.build(g)
+
+
+def b_eval(g):
+    attack.build(g); evaluation.build(g)
+
+
+def b_draw(g):
+    attack.build(g); draw.build(g)
+
+
 PROPS = {
+    'C10': {
+        'verus': [{'name': 'draw', 'build': b_draw, 'rlimit': 30}],
+        'whitelist': WL_ATTACK,
+        'trusted_base': TB_COMMON + ["vstd's model of std::collections::HashMap (u64 keys obey the key model)"],
+        'dropped': DROPPED_COMMON + ['DrawTable::remove_board_from_draw_table (Some(&val) pattern unsupported by Verus)'],
+        'explanation': 'exact per-operation counts of the repetition table with frame; seen >= 2 <=> draw',
+        'assumptions': [],
+        'not_decided': [],
+    },
+    'C14': {
+        'verus': [{'name': 'eval', 'build': b_eval, 'rlimit': 60}],
+        'whitelist': WL_ATTACK,
+        'trusted_base': TB_COMMON,
+        'dropped': DROPPED_COMMON,
+        'explanation': 'get_evaluation(b) == eval_spec(b.board, b.to_move); mirror, negation and bound lemmas over eval_spec',
+        'assumptions': [],
+        'not_decided': [],
+    },
+    'C05': {
+        'verus': [{'name': 'hash', 'build': b_hash, 'rlimit': 30}],
+        'whitelist': WL_ATTACK,
+        'trusted_base': TB_COMMON,
+        'dropped': DROPPED_COMMON,
+        'explanation': 'key_ok as representation invariant',
+        'assumptions': [],
+        'not_decided': [],
+    },
     'C06': {
         'verus': [{'name': 'attack', 'build': b_attack, 'rlimit': 30}],
         'whitelist': WL_ATTACK,
